@@ -113,10 +113,7 @@ impl StreamingQueryExecutor {
             .iter()
             .map(|chunk| chunk.chunk_path.clone())
             .collect();
-        let historical_batches = self
-            .engine
-            .with_metrics_table(&chunk_paths, || async { self.engine.execute(sql).await })
-            .await?;
+        let historical_batches = self.engine.execute_on_chunks(&chunk_paths, sql).await?;
 
         let receiver = self.receiver;
 
